@@ -9,7 +9,7 @@
 (*   Mode "all3" : ALL words of length <= 3 over the entry points (entry   *)
 (*                 point x target, first variant; quick: the constructors, *)
 (*                 setters, methods and the handle reader on target 1);    *)
-(*   Mode "mini" : all words of length <= 3 over a handful of calls of     *)
+(*   Mode "mini" : all words of length <= 4 over a handful of calls of     *)
 (*                 every role (used for the non-vacuity runs).             *)
 (* Every user call expands to the steps Session!Plan prescribes.  The C18  *)
 (* clauses are INVARIANTs checked on every state.  With Impure # "none"    *)
@@ -41,7 +41,9 @@ WCalls == AllCalls(World)
 MiniNames == {"time_correlation", "read_neighbors", "reopen", "gr", "gr.getresults", "NematicOrder.tensor", "NematicOrder.time_corr"}
 Alpha ==
   IF Mode = "fgf" THEN WCalls
-  ELSE IF Mode = "mini" THEN {c \in WCalls : Reg[c.e].n \in MiniNames /\ c.v <= 1}
+  ELSE IF Mode = "mini" THEN (IF Impure = "cursor"
+                              THEN {c \in WCalls : Reg[c.e].n \in {"read_neighbors", "reopen", "time_correlation"} /\ c.v = 0 /\ c.s = 1}
+                              ELSE {c \in WCalls : Reg[c.e].n \in MiniNames /\ c.v <= 1})
   ELSE IF Mode = "all3" THEN (IF Tier = "quick" THEN {c \in BaseCalls(World) : c.s = 1 /\ Reg[c.e].role # "fn"}
                               ELSE BaseCalls(World))
   ELSE {}
@@ -54,6 +56,8 @@ NextAlpha ==
 
 CallNo(c) == c.e * 12 + c.v * 2 + c.s
 
+MaxLen == IF Mode = "mini" THEN 4 ELSE 3
+
 DoStep(c) ==
   \/ Exec(World, c)
   \/ Impure = "mutate" /\ \E o \in ObjsOfTarget(c.s) : MutatingCall(World, c, o)
@@ -64,7 +68,7 @@ DoStep(c) ==
 
 (* the user issues call c: its plan is computed and the first planned step is executed *)
 UserCall(c) ==
-  /\ pending = << >> /\ Len(word) < 3
+  /\ pending = << >> /\ Len(word) < MaxLen
   /\ Len(word) = 0 => CallNo(c) % NSHARDS = SHARD
   /\ word' = Append(word, c)
   /\ LET p == Plan(c, ana, cursor, World) IN DoStep(Head(p)) /\ pending' = Tail(p)
